@@ -510,7 +510,14 @@ class Check(PropertyCheck):
                   "reachable-store forms without the no-aliasing hypothesis (sep_reachable, typed_revert_restores_reachable, "
                   "typed_copy_independent_reachable), obj_edit_frame, fromState_fresh_roundtrip (from_state builds only fresh Headers objects and round-trips: "
                   "derived, no longer assumed, for messages), obj_copy_independent (copy, then ANY edit history of either "
-                  "side incl. in-place header/trailer edits, leaves the other's state), obj_edits_simulate. Tie: identical histories on real HTTP, WebSocket, TCP, UDP and DNS flows; "
+                  "side incl. in-place header/trailer edits, leaves the other's state), obj_edits_simulate; generic object layer "
+                  "(Model/C40_Obj2.lean) for EVERY component class - an object with an immutable part and sub-objects in a heap "
+                  "(WebSocketData and its messages, TCP/UDP message lists, DNS messages and their questions, metadata values, "
+                  "list-valued connection fields, Error): gobj_edit_simulates, gobj_edit_frame, gobj_fromState_fresh_roundtrip "
+                  "(from_state builds only fresh sub-objects and round-trips), gobj_copy_independent (all edit histories: in-place "
+                  "mutation of sub-objects, new sub-objects, append, pop, list replacement), gobj_edits_simulate, and the class "
+                  "simulations ws_edit_is_generic / tmsg_edit_is_generic / dns_edit_is_generic (the generic value edits ARE the "
+                  "typed model's edits of these classes). Tie: identical histories on real HTTP, WebSocket, TCP, UDP and DNS flows; "
                   "generic layer compares every flow's id/live/component states/backup/modified() after each operation; "
                   "for HTTP and WebSocket flows the typed layer is given only the DESCRIPTION of each edit and must predict "
                   "the full nested get_state() of every flow (compared token by token, incl. header lists and bodies).")
@@ -525,10 +532,12 @@ class Check(PropertyCheck):
                   "model's prediction. Leaf values the model "
                   "never computes on (timestamps, host, path, status, connection field values, metadata values) are interned "
                   "atoms, header names/values and bodies are real bytes; set_content is modelled in full - the answer of encoding.encode (the codec "
-                  "libraries are C31's parameter) is an input of the edit; nested mutation inside a metadata VALUE is given as the new value. Fresh-object allocation by from_state/copy is derived from the transcription for http.Message "
-                  "(object layer); for the other component classes (connections, Error, WebSocketData, TCP/UDP/DNS messages) and "
-                  "the in-place/re-assign split of Flow.set_state it remains a modelling claim of the component heap validated "
-                  "by the differential run. Flow.modified() is modelled after the repair of F-C40a. A copy inherits the "
+                  "libraries are C31's parameter) is an input of the edit; nested mutation inside a metadata VALUE is given as the new value. Fresh-object allocation by from_state/copy is derived from the transcriptions of the object layers "
+                  "(http.Message: C40_Obj; every other class: the generic C40_Obj2, with class-specific simulation lemmas for "
+                  "WebSocketData, TCP/UDP messages and DNS messages; metadata, connections and Error are instances of the generic "
+                  "theorems without a class-specific simulation lemma). The object layers are tied to the code through the typed "
+                  "value model they simulate, not by a driver op of their own. Flow.set_state's in-place/re-assign split is a "
+                  "parameter `ip` over which every theorem quantifies. Flow.modified() is modelled after the repair of F-C40a. A copy inherits the "
                   "source's backup including the source's id, so reverting a copy gives it the source's id: modelled as "
                   "implemented (not part of the C40 statement).")
     technique = "Lean 4 proof (heap model, induction over operation histories) + differential model-vs-code correspondence"
